@@ -733,6 +733,12 @@ fn consume_expr<'i>(
         _ => unreachable!("infix"),
     };
 
+    // `expression` allows a leading `|` at every nesting level, not only at the top of a rule
+    let mut pairs = pairs;
+    if pairs.peek().map(|pair| pair.as_rule()) == Some(Rule::choice_operator) {
+        pairs.next();
+    }
+
     pratt.map_primary(term).map_infix(infix).parse(pairs)
 }
 
